@@ -97,7 +97,28 @@ def main(tier, seed):
             ctx.check(switches <= 1, "history:window-switch-happens-at-most-once")
     rep.run("assess_performance_and_checkpoint:histories", history, fn="rl_blox.blox.checkpointing.assess_performance_and_checkpoint")
     _td7_loop(rep, tier)
+    if tier == "thorough":
+        _crosshair_twin(rep)
     return rep.finish()
+
+
+def _crosshair_twin(rep):
+    """Independent second engine: CrossHair (symbolic execution of Python with z3) on the same inductive step.
+    'Confirmed over all paths' is recorded; anything else is recorded as inconclusive for the twin only, except a
+    counterexample, which contradicts the primary engine and makes the run inconclusive."""
+    import os
+    import subprocess
+    import sys
+    here = os.path.dirname(os.path.abspath(__file__))
+    cmd = [sys.executable, "-m", "crosshair", "check", "--report_all", "--per_condition_timeout", "60", os.path.join(here, "crosshair_c15.py")]
+    try:
+        out = subprocess.run(cmd, capture_output=True, text=True, timeout=300, env=dict(os.environ, JAX_PLATFORMS="cpu")).stdout
+    except Exception as ex:  # noqa
+        out = f"crosshair failed: {ex}"
+    verdict = "confirmed" if "Confirmed over all paths" in out else ("counterexample" if "false when calling" in out or "error:" in out.lower() and "assess_twin" in out else "not confirmed")
+    rep.r.extra["crosshair_twin"] = {"cmd": " ".join(cmd[1:]), "verdict": verdict, "output": out.strip()[-400:]}
+    if verdict == "counterexample":
+        rep.r.inconclusive_("assess_performance_and_checkpoint:crosshair-twin", "CrossHair reports a counterexample the primary engine does not: " + out.strip()[-200:])
 
 
 def _td7_loop(rep, tier):
